@@ -4,6 +4,7 @@ Theorems about `replaceList` / `quoteAction` of the model (Expand.lean), for tok
 unbounded size and nesting depth (mutual structural induction over `Tok` / `List Tok`).
 -/
 import O2oModel.Expand
+import O2oModel.Lemmas.Lines
 namespace O2o
 
 mutual
@@ -161,5 +162,56 @@ example :
       [Tok.ident "f", Tok.group .paren [Tok.punct '~' false, Tok.punct ',' false, Tok.group .bracket [Tok.punct '@' false, Tok.punct '&' true, Tok.punct '&' false, Tok.lit "\"~@\""]]]
     = [Tok.ident "f", Tok.group .paren [Tok.ident "value", Tok.punct '.' false, Tok.ident "x", Tok.punct ',' false,
         Tok.group .bracket [Tok.ident "value", Tok.punct '&' true, Tok.punct '&' false, Tok.lit "\"~@\""]]] := by decide
+
+/-- C10-6 (`~` under a positional source): a named member built from a tuple-shaped source (`#[from(T as ())]`) whose
+    instruction gives an expression and no index — `~` is the source's member at the member's *declaration* position
+    `f.idx`, whatever the number `idx` of initialiser lines written before it (bare ghosts leave no line) -/
+theorem C10_tilde_positional_source (f : Field) (ctx : ImplContext) (n : String) (idx : Nat) (c : MemberAttrCore) (act : TS)
+    (hm : f.member = .named n) (hk : ctx.kind.cls = .from_)
+    (ha : f.attrs.applicableAttr ctx.kind ctx.fallible ctx.ty = some (.field c))
+    (hc : c.member = none) (hact : c.action = some act)
+    (hch : f.attrs.child ctx.ty = none) (hv : ctx.isVariant = false) :
+    renderStructLine f ctx .tuple idx none =
+      .ok ([Tok.ident n, .punct ':' false] ++ quoteAction act (some (Member.unnamed f.idx).toTS) ctx ++ [Tok.punct ',' false]) := by
+  unfold renderStructLine
+  simp [hm, hk, ha, hc, hact, hch, hv, ApplicableAttr.getStuff, getStuffInner, bind, Except.bind, pure, Except.pure, Member.toTS,
+    i, colon, comma, List.append_assoc]
+
+/-- C10-7: no line of a From conversion depends on the running line counter — every path a `~` (or a default read)
+    resolves to comes from the member and its instructions -/
+theorem C10_from_line_ignores_line_count (f : Field) (ctx : ImplContext) (hint : TypeHint) (idx idx' : Nat)
+    (pc : Option ParentChildField) (h : ctx.kind.cls = .from_) :
+    renderStructLine f ctx hint idx pc = renderStructLine f ctx hint idx' pc :=
+  renderStructLine_from_ignores_counter f ctx hint idx idx' pc h
+
+/-- C10-7 (Into, initialiser expression): likewise when the counterpart is written as one struct / tuple expression -/
+theorem C10_into_line_ignores_line_count (f : Field) (ctx : ImplContext) (hint : TypeHint) (idx idx' : Nat)
+    (pc : Option ParentChildField) (h : ctx.kind.cls = .into) (hp : ctx.hasPostInit = false) :
+    renderStructLine f ctx hint idx pc = renderStructLine f ctx hint idx' pc :=
+  renderStructLine_into_ignores_counter f ctx hint idx idx' pc h hp
+
+/-- non-vacuity: the third member (declaration index 2) of `#[from(T as ())] struct S { #[ghost] a, .., #[from(~ + 1)] c }`
+    rendered as the second line (one line was left out): `c: value.2 + 1,` -/
+def exSkewField : Field :=
+  { attrs := { attrs := [{ attr := { containerTy := none, member := none, action := some [Tok.punct '~' false, Tok.punct '+' false, Tok.lit "1"] },
+                           fallible := false, originalInstr := "from", appl := [false, false, true, true, false, false] }] },
+    idx := 2, member := .named "c", memberStr := "c", ty := none }
+
+def exSkewCtx : ImplContext := { (default : ImplContext) with kind := .fromOwned, implType := .struct, fallible := false, hasPostInit := false }
+
+/-- the hypotheses of `C10_tilde_positional_source` hold for it .. -/
+example : exSkewField.member = .named "c" ∧ exSkewCtx.kind.cls = .from_ ∧ exSkewCtx.isVariant = false ∧
+    exSkewField.attrs.child exSkewCtx.ty = none ∧
+    exSkewField.attrs.applicableAttr exSkewCtx.kind exSkewCtx.fallible exSkewCtx.ty
+      = some (.field { containerTy := none, member := none, action := some [Tok.punct '~' false, Tok.punct '+' false, Tok.lit "1"] }) := by
+  refine ⟨rfl, by decide, by decide, rfl, ?_⟩
+  simp [exSkewField, exSkewCtx, MemberAttrs.applicableAttr, MemberAttrs.ghost, MemberAttrs.fieldAttrCore, MemberAttrs.fieldAttr,
+    MemberAttrs.iterForKind, findDedicatedOrDefault, Appl.get, isSomeEq]
+  decide
+
+/-- .. and the line is `c: value.2 + 1,` although it is written as line 1 -/
+example : (match renderStructLine exSkewField exSkewCtx .tuple 1 none with | .ok ts => ts | .error _ => []) =
+    [Tok.ident "c", .punct ':' false, .ident "value", .punct '.' false, .lit "2", .punct '+' false, .lit "1", .punct ',' false] := by
+  decide
 
 end O2o
